@@ -20,6 +20,9 @@ Ops (positional; keys = 64 hex digits; optional client accounts `none` | key; ke
   the same entry from the compiled code (discriminant bytes, borsh layout probe, meta layout probe,
   `offset_of!` / `size_of`, tags, enum encodings)
 * `mint <owner> <image>` / `token <owner> <image>` → `ok <fields>` | `err:<class>`
+* `view <mint|token> <unchecked|data|validate|set|vset|vdirect|init> <w0s0|w0s1|w1s0|w1s1> <owner> <image> [args]` —
+  every access path of the views under the runtime flags of the `AccountInfo` (see `viewOp`); `mint`/`token`/
+  `vmint`/`vtoken` below are the `set` / `vset` paths with `w0s0`
 * `vmint <owner> <image> <decimals|any> <authority|any> <any|none|freeze key>` /
   `vtoken <owner> <image> <mint|any> <owner|any>` — `validate()?; validate_mint/validate_token(arg)` →
   `ok` | `err:<class>`
@@ -247,6 +250,78 @@ def tableOp : List String → String
       (sortStrs (Generated.AuthorityType.all.map (fun a => s!"{a.name}={toHex (leN 1 a.idx)}")))
   | _ => "bad-op"
 
+/-- runtime flags of the `AccountInfo`: `w<0|1>s<0|1>` → (writable, signer) -/
+def pFlags (s : String) : Option (Bool × Bool) :=
+  if s = "w0s0" then some (false, false) else if s = "w0s1" then some (false, true)
+  else if s = "w1s0" then some (true, false) else if s = "w1s1" then some (true, true) else none
+
+def showFields {α : Type} (sh : α → String) (conv : List (SName × SVal) → α) :
+    Except ViewErr (List (SName × SVal)) → String
+  | .ok vs => sh (conv vs)
+  | .error e => showViewErr e
+
+def showUnit : Except ViewErr (List (SName × SVal)) → String
+  | .ok _ => "ok"
+  | .error e => showViewErr e
+
+def showInit : Except ValErr Unit → String
+  | .ok _ => "ok false"
+  | .error e => showValErr e
+
+/-- `view <mint|token> <path> <flags> <owner> <image> [args]` — every access path of the zero-copy views under
+the runtime flags of the `AccountInfo`:
+`unchecked` = `data_unchecked()`, `data` = `data()`, `validate` = `validate()`, `set` = decode + `validate_accounts(())`
++ `data()`, `vset <args>` = `validate_accounts(ValidateMint/ValidateToken)`, `vdirect <args>` =
+`validate_mint/validate_token(arg)` alone, `init <args>` = `init_account::<IF_NEEDED = true>` on the existing
+account (only for accounts the Token program owns: otherwise the create path runs — `bad-op`). The signer flag is
+carried but not read by any path. -/
+def viewOp : List String → String
+  | kind :: path :: flags :: owner :: image :: args =>
+    match pFlags flags, pKey owner, parseHex image with
+    | some (w, _), some o, some b =>
+      let ok := o == Generated.tokenId
+      if kind = "mint" then
+        match path, args with
+        | "unchecked", [] => showFields showMint viewMint (fwMintUnchecked b)
+        | "data", [] => showFields showMint viewMint (fwMintData w ok b)
+        | "validate", [] => showUnit (fwMintView ok b)
+        | "set", [] => showFields showMint viewMint (fwMintSet w ok b)
+        | "vset", [d, au, fr] =>
+          match pAny pU8 d, pAny pKey au, pFreeze fr with
+          | some d, some au, some fr => showVal (fwValidateMint w ok b ⟨d, au, fr⟩)
+          | _, _, _ => "bad-op"
+        | "vdirect", [d, au, fr] =>
+          match pAny pU8 d, pAny pKey au, pFreeze fr with
+          | some d, some au, some fr => showVal (fwValidateMintDirect w ok b ⟨d, au, fr⟩)
+          | _, _, _ => "bad-op"
+        | "init", [d, au, fr] =>
+          match pU8 d, pKey au, pOptKey fr with
+          | some d, some au, some fr => if ok then showInit (fwInitMintIfNeeded w b d au fr) else "bad-op"
+          | _, _, _ => "bad-op"
+        | _, _ => "bad-op"
+      else if kind = "token" then
+        match path, args with
+        | "unchecked", [] => showFields showToken viewToken (fwTokenUnchecked b)
+        | "data", [] => showFields showToken viewToken (fwTokenData w ok b)
+        | "validate", [] => showUnit (fwTokenView ok b)
+        | "set", [] => showFields showToken viewToken (fwTokenSet w ok b)
+        | "vset", [m, own] =>
+          match pAny pKey m, pAny pKey own with
+          | some m, some own => showVal (fwValidateToken w ok b ⟨m, own⟩)
+          | _, _ => "bad-op"
+        | "vdirect", [m, own] =>
+          match pAny pKey m, pAny pKey own with
+          | some m, some own => showVal (fwValidateTokenDirect w ok b ⟨m, own⟩)
+          | _, _ => "bad-op"
+        | "init", [m, own] =>
+          match pKey m, pKey own with
+          | some m, some own => if ok then showInit (fwInitTokenIfNeeded w b m own) else "bad-op"
+          | _, _ => "bad-op"
+        | _, _ => "bad-op"
+      else "bad-op"
+    | _, _, _ => "bad-op"
+  | _ => "bad-op"
+
 def step (_ : Unit) (toks : List String) : Unit × String :=
   let out :=
     match toks with
@@ -262,29 +337,11 @@ def step (_ : Unit) (toks : List String) : Unit × String :=
         | some rt => s!"ok {toHex (cpiProgram ix)} {toHex (cpiData ix)} {showMetas (cpiMetas rt ix)}"
         | none => "bad-op"
       | none => "bad-op"
-    | ["mint", owner, image] =>
-      match pKey owner, parseHex image with
-      | some o, some b =>
-        match fwMintView (o == Generated.tokenId) b with
-        | .ok vs => showMint (viewMint vs)
-        | .error e => showViewErr e
-      | _, _ => "bad-op"
-    | ["token", owner, image] =>
-      match pKey owner, parseHex image with
-      | some o, some b =>
-        match fwTokenView (o == Generated.tokenId) b with
-        | .ok vs => showToken (viewToken vs)
-        | .error e => showViewErr e
-      | _, _ => "bad-op"
-    | ["vmint", owner, image, d, au, fr] =>
-      match pKey owner, parseHex image, pAny pU8 d, pAny pKey au, pFreeze fr with
-      | some o, some b, some d, some au, some fr =>
-        showVal (fwValidateMint (o == Generated.tokenId) b ⟨d, au, fr⟩)
-      | _, _, _, _, _ => "bad-op"
-    | ["vtoken", owner, image, mint, own] =>
-      match pKey owner, parseHex image, pAny pKey mint, pAny pKey own with
-      | some o, some b, some m, some w => showVal (fwValidateToken (o == Generated.tokenId) b ⟨m, w⟩)
-      | _, _, _, _ => "bad-op"
+    | ["mint", owner, image] => viewOp ["mint", "set", "w0s0", owner, image]
+    | ["token", owner, image] => viewOp ["token", "set", "w0s0", owner, image]
+    | ["vmint", owner, image, d, au, fr] => viewOp ["mint", "vset", "w0s0", owner, image, d, au, fr]
+    | ["vtoken", owner, image, mint, own] => viewOp ["token", "vset", "w0s0", owner, image, mint, own]
+    | "view" :: rest => viewOp rest
     | ["ata", wallet, mint] =>
       match pKey wallet, pKey mint with
       | some w, some m =>
